@@ -69,7 +69,7 @@ Theorem C02_any_qc_sound : forall (c : cfg) (st : store) (bq : qc) (ag : option 
   verify_any_qc_with c st bq ag pick = Ok tt ->
   verify_qc c st bq = Ok tt /\
   (c_aggqc c = true -> forall a, ag = Some a ->
-     exists h, pick (verify_aggqc c st a) = Ok h /\ qc_equals bq h = true).
+     exists h, pick (verify_aggqc c st a) = Ok h /\ qc_view bq = qc_view h /\ qc_hash bq = qc_hash h).
 Proof. exact any_qc_sound. Qed.
 Print Assumptions C02_any_qc_sound.
 
@@ -142,15 +142,34 @@ Proof. exact aggqc_sound_p. Qed.
 Print Assumptions C02_aggqc_sound_pop.
 
 (* VerifyAnyQC: the block's QC itself verifies; agreeing with the aggregate's high QC under
-   QuorumCert.Equals (view, hash, signature bytes — not the claimed signers) is never sufficient *)
-Theorem C02_any_qc_sound_pop : forall (c : cfg) (x : vctx) (st : store) (sd : qcdigest -> N)
+   view and block is never sufficient *)
+Theorem C02_any_qc_sound_pop : forall (c : cfg) (x : vctx) (st : store)
     (bq : qc) (ag : option aggqc) (pick : result qc -> result qc),
-  verify_any_qc_p c x st sd bq ag pick = Ok tt ->
+  verify_any_qc_p c x st bq ag pick = Ok tt ->
   verify_qc_p c x st bq = Ok tt /\
   (c_aggqc c = true -> forall a, ag = Some a ->
-     exists h, pick (verify_aggqc_p c x st a) = Ok h /\ qc_equals_sd sd bq h = true).
+     exists h, pick (verify_aggqc_p c x st a) = Ok h /\ qc_view bq = qc_view h /\ qc_hash bq = qc_hash h).
 Proof. exact any_qc_sound_p. Qed.
 Print Assumptions C02_any_qc_sound_pop.
+
+(* VerifyAnyQC is deterministic and complete (repair fixes/C02-anyqc-deterministic-highqc.patch): which of
+   several equal-view valid QCs for one block VerifyAggregateQC returned does not matter, and a proposal
+   whose block QC verifies on its own and certifies the high QC's block and view is accepted *)
+Theorem C02_any_qc_pick_irrelevant : forall (c : cfg) (x : vctx) (st : store) (bq : qc) (ag : option aggqc) (h1 h2 : qc),
+  qc_view h1 = qc_view h2 -> qc_hash h1 = qc_hash h2 ->
+  verify_any_qc_p c x st bq ag (fun _ => Ok h1) = verify_any_qc_p c x st bq ag (fun _ => Ok h2).
+Proof. exact any_qc_pick_irrelevant. Qed.
+Print Assumptions C02_any_qc_pick_irrelevant.
+
+Theorem C02_any_qc_complete : forall (c : cfg) (x : vctx) (st : store) (bq : qc) (a : aggqc) (h : qc)
+    (pick : result qc -> result qc),
+  aq_sig a <> None ->
+  pick (verify_aggqc_p c x st a) = Ok h ->
+  qc_view bq = qc_view h -> qc_hash bq = qc_hash h ->
+  verify_qc_p c x st bq = Ok tt ->
+  verify_any_qc_p c x st bq (Some a) pick = Ok tt.
+Proof. exact any_qc_complete_p. Qed.
+Print Assumptions C02_any_qc_complete.
 
 (* with every registered proof valid these are the functions of CertModel.v (to which the
    completeness theorems above apply) *)
@@ -219,14 +238,18 @@ Example C02_ex_pop :
   verify_qc_p (ex_cfg Ecdsa) (mkV 1 [3]) ex_st (mkQC (Some (ex_multi [1;2;3] (MBlock 2))) 1 2 9) = Ok tt.
 Proof. vm_compute. repeat split; reflexivity. Qed.
 
-(* a relabelled twin of the high QC as block QC: equal under Equals, still rejected *)
-Example C02_ex_twin_block_qc :
-  let q := mkQC (Some (ex_multi [1;2;3] (MBlock 2))) 1 2 7 in
-  let twin := mkQC (Some (QMulti KEcdsa [mkSig 2 (Some (1, MBlock 2)); mkSig 3 (Some (2, MBlock 2)); mkSig 1 (Some (3, MBlock 2))])) 1 2 8 in
-  let a := mkAgg [(1, q); (2, q); (3, q)]
-             (Some (QMulti KEcdsa [ex_sg 1 (MTimeout 1 6 (Some 7)); ex_sg 2 (MTimeout 2 6 (Some 7)); ex_sg 3 (MTimeout 3 6 (Some 7))])) 6 in
-  let sd := fun d : qcdigest => match d with 7 | 8 => 5 | _ => 0 end in
-  qc_equals_sd sd twin q = true /\
-  verify_any_qc_p (ex_cfg Ecdsa) (mkV 1 []) ex_st sd twin (Some a) (fun r => r) = Reject /\
-  verify_any_qc_p (ex_cfg Ecdsa) (mkV 1 []) ex_st sd q (Some a) (fun r => r) = Ok tt.
+(* block QCs next to a genuine aggregate whose signers attest two different valid QCs for block 2 (signer
+   sets {1,2,3} and {2,3,4}): either of them is accepted as block QC whichever the aggregate's high QC is;
+   a relabelled twin (same bytes, other claimed signers) certifies the same block and view but is rejected
+   because it does not verify on its own *)
+Example C02_ex_block_qc_next_to_aggregate :
+  let qa := mkQC (Some (ex_multi [1;2;3] (MBlock 2))) 1 2 7 in
+  let qb := mkQC (Some (ex_multi [2;3;4] (MBlock 2))) 1 2 8 in
+  let twin := mkQC (Some (QMulti KEcdsa [mkSig 2 (Some (1, MBlock 2)); mkSig 3 (Some (2, MBlock 2)); mkSig 1 (Some (3, MBlock 2))])) 1 2 9 in
+  let a := mkAgg [(1, qa); (2, qb); (3, qa)]
+             (Some (QMulti KEcdsa [ex_sg 1 (MTimeout 1 6 (Some 7)); ex_sg 2 (MTimeout 2 6 (Some 8)); ex_sg 3 (MTimeout 3 6 (Some 7))])) 6 in
+  let any := fun bq h => verify_any_qc_p (ex_cfg Ecdsa) (mkV 1 []) ex_st bq (Some a) (fun _ => Ok h) in
+  any qa qa = Ok tt /\ any qa qb = Ok tt /\ any qb qa = Ok tt /\ any qb qb = Ok tt /\
+  any twin qa = Reject /\ any twin qb = Reject /\
+  verify_any_qc_p (ex_cfg Ecdsa) (mkV 1 []) ex_st qb (Some a) (fun r => r) = Ok tt.
 Proof. vm_compute. repeat split; reflexivity. Qed.
